@@ -126,7 +126,8 @@ def check_base(ctx, case):
             # the relation is checked against a base with the (quantised) values / coordinates given by the transform
             over = tr[6] if isinstance(tr[6], dict) else dict(values=tr[6])
             try:
-                e0, c0, x0, _, _ = observe(dict(case, dtype='float64', **{k: v.tolist() for k, v in over.items()}))
+                e0, c0, x0, _, _ = observe(dict(case, dtype='float64', coord_dtype='float64',
+                                                 **{k: v.tolist() for k, v in over.items()}))
             except (ValueError, AttributeError, RuntimeError) as e:
                 ctx.reject(type(e).__name__)
                 continue
@@ -140,7 +141,7 @@ def check_base(ctx, case):
                 not margin_ok(d0, e0, ml_abs):
             ctx.count('skipped_edge_tie')
             continue
-        tc = dict(case, coords=nc.tolist(), values=nv.tolist())
+        tc = dict(case, coords=nc.tolist(), values=nv.tolist(), coord_dtype='float64')
         if name.startswith(('shift_values', 'scale_values')):
             tc['dtype'] = 'float64'      # the transformed values need not be representable in the base dtype
         if name.startswith('scale_coords') and isinstance(ml, str):
@@ -183,7 +184,7 @@ def check_base(ctx, case):
     # tie the (permuted) instance to the model as well
     if ctx.rng.random() < 0.25:
         perm = ctx.rng.permutation(len(values))
-        c01.check_case(ctx, dict(case, coords=coords[perm].tolist(), values=values[perm].tolist()))
+        c01.check_case(ctx, dict(case, coords=coords[perm].tolist(), values=values[perm].tolist()))   # keeps the dtype
 
 
 def run(ctx):
